@@ -113,6 +113,18 @@ impl Rng {
         v
     }
 
+    /// random bytes of a random length in 0..max
+    pub fn bytes_upto(&mut self, max: usize) -> Vec<u8> {
+        let n = self.usize(max.max(1));
+        self.bytes(n)
+    }
+
+    /// random bytes with a length picked from `lens`
+    pub fn bytes_pick(&mut self, lens: &[usize]) -> Vec<u8> {
+        let n = *self.pick(lens);
+        self.bytes(n)
+    }
+
     pub fn shuffle<T>(&mut self, xs: &mut [T]) {
         for i in (1..xs.len()).rev() {
             let j = self.usize(i + 1);
